@@ -920,5 +920,319 @@ theorem handleKey_static : ∀ (f : Nat), KeyRecOK (handleKey Cfg.repaired f) :=
   | zero => intro st win ev st' d _ _ h; simp [handleKey] at h
   | succ f ih => exact handleKeyBody_static ih f
 
+/-! ### the phases of `_handle_mouse` with non-mutating handlers -/
+
+/-- The mouse event was offered to the windows `ws` (each with the event as it sees it), in order, up to the first
+    claim; `r` is the window that claimed. -/
+structure SegM (st : St) (ws : List (WinTree.Id × Ev)) (st' : St) (r : Option WinTree.Id) : Prop where
+  binds : st'.binds = (offerAll st.binds .mouse ws).1
+  log : offers st'.log = offers st.log ++ ((offerAll st.binds .mouse ws).2.1).map (fun p => (Kind.mouse, p.1, p.2))
+  ret : r = (offerAll st.binds .mouse ws).2.2
+
+theorem SegM.nil (st : St) : SegM st [] st none := ⟨rfl, by simp [offerAll], rfl⟩
+
+theorem SegM.claimed {st st1 : St} {xs : List (WinTree.Id × Ev)} {h : WinTree.Id} (hx : SegM st xs st1 (some h))
+    (ys : List (WinTree.Id × Ev)) : SegM st (xs ++ ys) st1 (some h) := by
+  have hs : (offerAll st.binds .mouse xs).2.2.isSome = true := by rw [← hx.ret]; rfl
+  have key : offerAll st.binds .mouse (xs ++ ys) = offerAll st.binds .mouse xs := by
+    rw [offerAll_append, if_pos hs]
+  exact ⟨by rw [key]; exact hx.binds, by rw [key]; exact hx.log, by rw [key]; exact hx.ret⟩
+
+theorem SegM.append {st st1 st2 : St} {xs ys : List (WinTree.Id × Ev)} {r2 : Option WinTree.Id}
+    (h1 : SegM st xs st1 none) (h2 : SegM st1 ys st2 r2) : SegM st (xs ++ ys) st2 r2 := by
+  have hs : ¬ ((offerAll st.binds .mouse xs).2.2.isSome = true) := by
+    rw [← h1.ret]; simp
+  have key : offerAll st.binds .mouse (xs ++ ys) =
+      ((offerAll (offerAll st.binds .mouse xs).1 .mouse ys).1,
+       (offerAll st.binds .mouse xs).2.1 ++ (offerAll (offerAll st.binds .mouse xs).1 .mouse ys).2.1,
+       (offerAll (offerAll st.binds .mouse xs).1 .mouse ys).2.2) := by
+    rw [offerAll_append, if_neg hs]
+  refine ⟨?_, ?_, ?_⟩
+  · rw [key, h2.binds, h1.binds]
+  · rw [key, h2.log, h1.log, h1.binds]; simp only [List.map_append, List.append_assoc]
+  · rw [key, h2.ret, h1.binds]
+
+def MouseRecOK (rec : MouseRec) : Prop :=
+  ∀ (st : St) (c : WinTree.Id) (ev : Ev) (st' : St) (r : Option WinTree.Id), Static st.binds → WF st.tree →
+    rec st c ev = Out.ok (st', r) →
+    Frame st st' ∧ ∀ (F : Nat) (ws : List (WinTree.Id × Ev)), mouseVisits st.tree F c ev = some ws → SegM st ws st' r
+
+theorem childVisits_le {t t' : Tree} (h : Le t t') (g : WinTree.Id → Ev → Option (List (WinTree.Id × Ev))) (ev : Ev)
+    (c : WinTree.Id) : childVisits t' g ev c = childVisits t g ev c := by
+  unfold childVisits
+  cases hw : t.wins[c]? with
+  | none => simp [h.wins_none hw]
+  | some w =>
+    obtain ⟨w', hw', e, _⟩ := h.win c w hw
+    obtain ⟨_, _, _, e4, _, _, _, e8, _⟩ := noRc_fields e
+    have h1 : ev.toChild w' = ev.toChild w := by unfold Ev.toChild; rw [e4]
+    have h2 : inChild w' ev.line ev.col = inChild w ev.line ev.col := by unfold inChild outsideChild; rw [e4]
+    simp only [hw', e8, h1, h2]
+
+theorem mouseVisits_le {t t' : Tree} (h : Le t t') : ∀ (f : Nat) (i : WinTree.Id) (ev : Ev),
+    mouseVisits t' f i ev = mouseVisits t f i ev := by
+  intro f
+  induction f with
+  | zero => intro i ev; rfl
+  | succ f ih =>
+    intro i ev
+    have hfun : mouseVisits t' f = mouseVisits t f := funext fun i => funext fun e => ih i e
+    unfold mouseVisits
+    cases hw : t.wins[i]? with
+    | none => simp [h.wins_none hw]
+    | some w =>
+      obtain ⟨w', hw', e, _⟩ := h.win i w hw
+      have hcv : childVisits t' (mouseVisits t f) ev = childVisits t (mouseVisits t f) ev :=
+        funext (childVisits_le h _ ev)
+      simp only [hw', hfun, hcv, (noRc_fields e).2.1, visibleChain_le h, h.treeFuel]
+
+theorem mouseSnap_static {rec : MouseRec} (hrec : MouseRecOK rec) (win : WinTree.Id) (ev : Ev) :
+    ∀ (cs : List WinTree.Id) (st st' : St) (r : Option WinTree.Id) (w : Win), Static st.binds → WF st.tree →
+      WinTree.get st.tree win = Res.ok w → (∀ c ∈ cs, c ∈ w.children) →
+      mouseSnap rec st win cs ev = Out.ok (st', r) →
+      Frame st st' ∧ ∀ (F : Nat) (ws : List (WinTree.Id × Ev)),
+        visitList (childVisits st.tree (mouseVisits st.tree F) ev) cs = some ws → SegM st ws st' r := by
+  intro cs
+  induction cs with
+  | nil =>
+    intro st st' r w hs _ _ _ h
+    simp only [mouseSnap, out_pure, Out.ok.injEq, Prod.mk.injEq] at h
+    obtain ⟨rfl, rfl⟩ := h
+    refine ⟨Frame.refl hs, ?_⟩
+    intro F ws hv
+    simp only [visitList, Option.some.injEq] at hv
+    subst hv; exact SegM.nil _
+  | cons c rest ih =>
+    intro st st' r w hs hwf hw hsub h
+    simp only [mouseSnap] at h
+    obtain ⟨cw, hcw, h⟩ := lift_bind_eq_ok.1 h
+    obtain ⟨hww, hwf'⟩ := get_eq_ok.1 hw
+    have hpar : cw.parent = some win :=
+      hwf.parent win c w cw hww hwf' (hsub c (List.mem_cons_self ..)) (get_eq_ok.1 hcw).1
+    simp only [hpar, ne_eq, not_true_eq_false, if_false] at h
+    have hsub' : ∀ c' ∈ rest, c' ∈ w.children := fun c' hc' => hsub c' (List.mem_cons_of_mem _ hc')
+    have hcvc : ∀ F, childVisits st.tree (mouseVisits st.tree F) ev c =
+        if cw.stealInput || inChild cw ev.line ev.col then mouseVisits st.tree F c (ev.toChild cw) else some [] := by
+      intro F; unfold childVisits; rw [(get_eq_ok.1 hcw).1]
+    by_cases hskip : (!cw.stealInput && outsideChild cw ev.line ev.col) = true
+    · simp only [hskip, if_true] at h
+      obtain ⟨fr, sp⟩ := ih st st' r w hs hwf hw hsub' h
+      refine ⟨fr, ?_⟩
+      intro F ws hv
+      obtain ⟨a, b, ha, hb, rfl⟩ := visitList_cons_some hv
+      have hno : (cw.stealInput || inChild cw ev.line ev.col) = false := by
+        unfold inChild; cases hst : cw.stealInput <;> cases ho : outsideChild cw ev.line ev.col <;> simp_all
+      rw [hcvc F, hno] at ha
+      simp only [Bool.false_eq_true, if_false, Option.some.injEq] at ha
+      subst ha
+      simpa using sp F b hb
+    · simp only [hskip, if_false] at h
+      obtain ⟨⟨st1, r1⟩, hr, h⟩ := out_bind_eq_ok.1 h
+      obtain ⟨fr1, sp1⟩ := hrec st c (ev.toChild cw) st1 r1 hs hwf hr
+      have hyes : (cw.stealInput || inChild cw ev.line ev.col) = true := by
+        unfold inChild; cases hst : cw.stealInput <;> cases ho : outsideChild cw ev.line ev.col <;> simp_all
+      cases r1 with
+      | some hh =>
+        simp only [out_pure, Out.ok.injEq, Prod.mk.injEq] at h
+        obtain ⟨rfl, rfl⟩ := h
+        refine ⟨fr1, ?_⟩
+        intro F ws hv
+        obtain ⟨a, b, ha, _, rfl⟩ := visitList_cons_some hv
+        rw [hcvc F, hyes] at ha
+        simp only [if_true] at ha
+        exact (sp1 F a ha).claimed b
+      | none =>
+        simp only at h
+        obtain ⟨w1, hw1, e1, _⟩ := fr1.le.get hw
+        obtain ⟨_, e2, _⟩ := noRc_fields e1
+        obtain ⟨fr2, sp2⟩ := ih st1 st' r w1 fr1.static (hwf.le fr1.le) hw1 (by rw [e2]; exact hsub') h
+        refine ⟨fr1.trans fr2, ?_⟩
+        intro F ws hv
+        obtain ⟨a, b, ha, hb, rfl⟩ := visitList_cons_some hv
+        rw [hcvc F, hyes] at ha
+        simp only [if_true] at ha
+        refine (sp1 F a ha).append (sp2 F b ?_)
+        have h1 : mouseVisits st1.tree F = mouseVisits st.tree F :=
+          funext fun i => funext fun e => mouseVisits_le fr1.le F i e
+        have h2 : childVisits st1.tree (mouseVisits st.tree F) ev = childVisits st.tree (mouseVisits st.tree F) ev :=
+          funext (childVisits_le fr1.le _ ev)
+        rw [h1, h2]; exact hb
+
+theorem mouseChildren_static {rec : MouseRec} (hrec : MouseRecOK rec) {fuel : Nat} {st st' : St} {win : WinTree.Id}
+    {ev : Ev} {r : Option WinTree.Id} {w : Win} (hs : Static st.binds) (hwf : WF st.tree)
+    (hw : WinTree.get st.tree win = Res.ok w)
+    (h : mouseChildren Cfg.repaired rec fuel st win ev = Out.ok (st', r)) :
+    Frame st st' ∧ ∀ (F : Nat) (ws : List (WinTree.Id × Ev)),
+      visitList (childVisits st.tree (mouseVisits st.tree F) ev) w.children = some ws → SegM st ws st' r := by
+  unfold mouseChildren at h
+  simp only [hw, lift_ok, out_bind_ok, Cfg.repaired, if_true] at h
+  obtain ⟨st4, h4, h⟩ := lift_bind_eq_ok.1 h
+  obtain ⟨⟨st5, r5⟩, h5, h⟩ := out_bind_eq_ok.1 h
+  obtain ⟨st6, h6, h⟩ := lift_bind_eq_ok.1 h
+  simp only [out_pure, Out.ok.injEq, Prod.mk.injEq] at h
+  obtain ⟨rfl, rfl⟩ := h
+  obtain ⟨b4, o4, l4, le4, al4⟩ := refAll_ok _ _ _ h4
+  have hle4 : Le st.tree st4.tree := by
+    refine ⟨le4.root, le4.size, fun i x hx => ?_⟩
+    obtain ⟨x', hx', e, l⟩ := le4.win i x hx
+    exact ⟨x', hx', e, by omega⟩
+  obtain ⟨w4, hw4, e4, _⟩ := hle4.get hw
+  obtain ⟨_, e42, _⟩ := noRc_fields e4
+  have hs4 : Static st4.binds := by rw [b4]; exact hs
+  obtain ⟨fr5, sp5⟩ := mouseSnap_static hrec win ev w.children st4 st5 r5 w4 hs4 (hwf.le hle4) hw4
+    (by intro c hc; rw [e42]; exact hc) h5
+  obtain ⟨st6', h6', b6, o6, l6, le6⟩ := unrefAll_cancel w.children st.tree st5 hwf.rc al4 (le4.trans fr5.le)
+  rw [h6'] at h6
+  cases h6
+  refine ⟨⟨le6, by rw [o6, fr5.owned, o4], by rw [b6]; exact fr5.static⟩, ?_⟩
+  intro F ws hv
+  have hv4 : visitList (childVisits st4.tree (mouseVisits st4.tree F) ev) w.children = some ws := by
+    have h1 : mouseVisits st4.tree F = mouseVisits st.tree F :=
+      funext fun i => funext fun e => mouseVisits_le hle4 F i e
+    have h2 : childVisits st4.tree (mouseVisits st.tree F) ev = childVisits st.tree (mouseVisits st.tree F) ev :=
+      funext (childVisits_le hle4 _ ev)
+    rw [h1, h2]; exact hv
+  have sg := sp5 F ws hv4
+  exact ⟨by rw [b6, sg.binds, b4], by rw [l6, sg.log, l4, b4], by rw [sg.ret, b4]⟩
+
+theorem mouseOwn_static {st st' : St} {win : WinTree.Id} {ev : Ev} {r : Option WinTree.Id} (hs : Static st.binds)
+    (hvis : isShown st.tree (treeFuel st.tree) win = Res.ok true)
+    (h : mouseOwn Cfg.repaired st win ev = Out.ok (st', r)) : Frame st st' ∧ SegM st [(win, ev)] st' r := by
+  unfold mouseOwn ownVisible at h
+  simp only [Cfg.repaired, if_true, hvis, lift_ok, out_bind_ok] at h
+  obtain ⟨st'', c, h1, h2, h3, h4, h5, h6⟩ := runHandlers_static .mouse win ev st hs
+  rw [h1] at h
+  simp only [lift_ok, out_bind_ok] at h
+  have hb : st''.binds = (offerOne st.binds .mouse win).1 := by rw [← h6]
+  have hc : c = (offerOne st.binds .mouse win).2 := by rw [← h6]
+  cases c with
+  | false =>
+    simp only [Bool.false_eq_true, if_false, out_pure, Out.ok.injEq, Prod.mk.injEq] at h
+    obtain ⟨rfl, rfl⟩ := h
+    refine ⟨⟨by rw [h2]; exact Le.refl _, h3, h4⟩, ?_⟩
+    refine ⟨?_, ?_, ?_⟩ <;> simp only [offerAll_single, ← hc]
+    · exact hb
+    · exact h5
+    · rfl
+  | true =>
+    simp only [if_true] at h
+    obtain ⟨st3, h3', h⟩ := lift_bind_eq_ok.1 h
+    simp only [out_pure, Out.ok.injEq, Prod.mk.injEq] at h
+    obtain ⟨rfl, rfl⟩ := h
+    obtain ⟨w, hg, e⟩ := refWin_eq_ok h3'
+    have hle : Le st.tree st3.tree := by
+      rw [e]; simp only; rw [← h2] ; exact le_set_rc (get_eq_ok.1 hg).1 (by omega)
+    refine ⟨⟨hle, by rw [e]; exact h3, by rw [e]; exact h4⟩, ?_⟩
+    refine ⟨?_, ?_, ?_⟩ <;> simp only [offerAll_single, ← hc]
+    · rw [e]; exact hb
+    · rw [e]; exact h5
+    · rfl
+
+/-- One level of `_handle_mouse` (repaired code, non-mutating handlers). -/
+theorem handleMouseBody_static {rec : MouseRec} (hrec : MouseRecOK rec) (fuel : Nat) :
+    MouseRecOK (handleMouseBody Cfg.repaired rec fuel) := by
+  intro st win ev st' r hs hwf h
+  unfold handleMouseBody at h
+  obtain ⟨vis, hvis, h⟩ := lift_bind_eq_ok.1 h
+  have hvis' : isShown st.tree (treeFuel st.tree) win = Res.ok vis := by
+    simpa [entryVisible, Cfg.repaired] using hvis
+  have hvc := isShown_ok _ _ _ _ hvis'
+  cases vis with
+  | false =>
+    simp only [Bool.not_false, if_true, out_pure, Out.ok.injEq, Prod.mk.injEq] at h
+    obtain ⟨rfl, rfl⟩ := h
+    refine ⟨Frame.refl hs, ?_⟩
+    intro F ws hv
+    cases F with
+    | zero => simp [mouseVisits] at hv
+    | succ F =>
+      unfold mouseVisits at hv
+      cases hw : st.tree.wins[win]? with
+      | none => simp only [hw, Option.some.injEq] at hv; subst hv; exact SegM.nil _
+      | some w =>
+        simp only [hw, hvc, Bool.not_false, if_true, Option.some.injEq] at hv
+        subst hv; exact SegM.nil _
+  | true =>
+    simp only [Bool.not_true, Bool.false_eq_true, if_false] at h
+    obtain ⟨st1, h1, h⟩ := lift_bind_eq_ok.1 h
+    obtain ⟨⟨st2, r2⟩, h2, h⟩ := out_bind_eq_ok.1 h
+    obtain ⟨⟨st3, r3⟩, h3, h⟩ := out_bind_eq_ok.1 h
+    obtain ⟨w0, hw0, e1⟩ := refWin_eq_ok h1
+    obtain ⟨hww0, hwf0⟩ := get_eq_ok.1 hw0
+    have hle1 : Le st.tree st1.tree := by
+      rw [e1]; exact le_set_rc hww0 (by omega)
+    have hs1 : Static st1.binds := by rw [e1]; exact hs
+    have ho1 : st1.owned = st.owned := by rw [e1]
+    have hb1 : st1.binds = st.binds := by rw [e1]
+    have hl1 : st1.log = st.log := by rw [e1]
+    obtain ⟨w1, hw1, ew1, _⟩ := hle1.get hw0
+    obtain ⟨fr2, sp2⟩ := mouseChildren_static hrec hs1 (hwf.le hle1) hw1 h2
+    have hle2 : Le st.tree st2.tree := hle1.trans fr2.le
+    -- children, then the window itself
+    have key : Frame st1 st3 ∧ ∀ (F : Nat) (a : List (WinTree.Id × Ev)),
+        visitList (childVisits st.tree (mouseVisits st.tree F) ev) w0.children = some a →
+        SegM st1 (a ++ [(win, ev)]) st3 r3 := by
+      have tr : ∀ (F : Nat) (a : List (WinTree.Id × Ev)),
+          visitList (childVisits st.tree (mouseVisits st.tree F) ev) w0.children = some a → SegM st1 a st2 r2 := by
+        intro F a ha
+        apply sp2 F a
+        have h1' : mouseVisits st1.tree F = mouseVisits st.tree F :=
+          funext fun i => funext fun e => mouseVisits_le hle1 F i e
+        have h2' : childVisits st1.tree (mouseVisits st.tree F) ev = childVisits st.tree (mouseVisits st.tree F) ev :=
+          funext (childVisits_le hle1 _ ev)
+        rw [h1', h2', (noRc_fields ew1).2.1]; exact ha
+      unfold mouseSelf at h3
+      cases r2 with
+      | some hh =>
+        simp only [out_pure, Out.ok.injEq, Prod.mk.injEq] at h3
+        obtain ⟨rfl, rfl⟩ := h3
+        exact ⟨fr2, fun F a ha => (tr F a ha).claimed _⟩
+      | none =>
+        simp only at h3
+        obtain ⟨fr3, sp3⟩ := mouseOwn_static fr2.static
+          (isShown_le hle2 _ _ _ (by rw [hle2.treeFuel]; exact hvis')) h3
+        exact ⟨fr2.trans fr3, fun F a ha => (tr F a ha).append sp3⟩
+    obtain ⟨fr13, sp13⟩ := key
+    -- done
+    unfold mouseDone at h
+    obtain ⟨w3, hw3, h⟩ := lift_bind_eq_ok.1 h
+    simp only [Cfg.repaired, Bool.not_true, Bool.false_and, Bool.false_eq_true, if_false] at h
+    obtain ⟨st4, hu, h⟩ := lift_bind_eq_ok.1 h
+    simp only [out_pure, Out.ok.injEq, Prod.mk.injEq] at h
+    obtain ⟨rfl, rfl⟩ := h
+    have hle3 : Le st1.tree st3.tree := fr13.le
+    obtain ⟨w3', hw3', _, l3⟩ := hle3.get (show WinTree.get st1.tree win = Res.ok { w0 with refcount := w0.refcount + 1 } by
+      rw [e1]; exact get_eq_ok.2 ⟨wins_set_self hww0, hwf0⟩)
+    rw [hw3] at hw3'; cases hw3'
+    have h2' : 2 ≤ w3.refcount := by
+      have := hwf.rc win w0 hww0 hwf0
+      simp only at l3; omega
+    rw [unrefLogged_nd hw3 h2'] at hu
+    cases hu
+    have hle4 : Le st.tree (WinTree.set st3.tree win { w3 with refcount := w3.refcount - 1 }) := by
+      apply le_cancel hww0 _ (get_eq_ok.1 hw3).1
+      rw [e1] at hle3; exact hle3
+    refine ⟨⟨hle4, by simp only; rw [fr13.owned, ho1], fr13.static⟩, ?_⟩
+    intro F ws hv
+    cases F with
+    | zero => simp [mouseVisits] at hv
+    | succ F =>
+      unfold mouseVisits at hv
+      simp only [hww0, hvc, Bool.not_true, Bool.false_eq_true, if_false] at hv
+      cases ha : visitList (childVisits st.tree (mouseVisits st.tree F) ev) w0.children with
+      | none => simp [ha] at hv
+      | some a =>
+        simp [ha] at hv
+        subst hv
+        have sg := sp13 F a ha
+        exact ⟨by simp only; rw [sg.binds, hb1], by simp only; rw [sg.log, hl1, hb1], by rw [sg.ret, hb1]⟩
+
+/-- `_handle_mouse` (repaired code) with non-mutating handlers, for every fuel. -/
+theorem handleMouse_static : ∀ (f : Nat), MouseRecOK (handleMouse Cfg.repaired f) := by
+  intro f
+  induction f with
+  | zero => intro st win ev st' r _ _ h; simp [handleMouse] at h
+  | succ f ih => exact handleMouseBody_static ih f
+
 end WinInput
 end Tickit
